@@ -285,22 +285,24 @@ def _cmp_constraints(ctx, c, pol):
     return None
 
 
-def _fact_alternatives(ctx, cond, pol, depth=0):
-    """disjunctive normal form (list of conjunctions of Lin >= 0) of the branch outcome, None if some part is not linear"""
+def _fact_alternatives(ctx, cond, pol, depth=0, strict=False):
+    """disjunctive normal form (list of conjunctions of Lin >= 0) of the branch outcome, None if some part is not linear
+    (strict=False: a non-linear conjunct is dropped - weaker, still sound for proofs; the caller keeps the fact for the
+    concrete evaluation of candidate instances)"""
     n = cond.strip()
     if n.k == "UnaryOperator" and n.op == "!" and n.c:
-        return _fact_alternatives(ctx, n.c[0], not pol, depth)
+        return _fact_alternatives(ctx, n.c[0], not pol, depth, strict)
     if n.k == "BinaryOperator" and n.op in ("&&", "||") and len(n.c) == 2 and depth < 4:
         conj = (n.op == "&&") == pol
-        a = _fact_alternatives(ctx, n.c[0], pol, depth + 1)
-        b = _fact_alternatives(ctx, n.c[1], pol, depth + 1)
+        a = _fact_alternatives(ctx, n.c[0], pol, depth + 1, strict)
+        b = _fact_alternatives(ctx, n.c[1], pol, depth + 1, strict)
         if conj:
             if a is None and b is None:
                 return None
             if a is None:
-                return b          # dropping a conjunct weakens the fact: still sound for proofs (marked incomplete by caller)
+                return None if strict else b
             if b is None:
-                return a
+                return None if strict else a
             return [x + y for x in a for y in b]
         if a is None or b is None:
             return None
@@ -655,6 +657,8 @@ def _gather(ctx, f, node, base_cons, seed_atoms, size_cache, skip_size_of=None):
         if alts is None:
             nonlinear.append(fact)
             continue
+        if _fact_alternatives(ctx, fact.cond, fact.pol, strict=True) is None:
+            nonlinear.append(fact)      # partly linear: the linear part serves the proof, the whole fact is evaluated on instances
         if len(alts) == 1:
             base_cons += alts[0]
         elif len(alternatives) * len(alts) <= MAX_CASES:
@@ -963,7 +967,7 @@ def _accepts(prog, g, pname, value):
     for fact in g.facts_at_block(g.exit, normal_exit=True):
         if fact.belief or not _mentions(fact.cond, {pname}):
             continue
-        alts = _fact_alternatives(c2, fact.cond, fact.pol)
+        alts = _fact_alternatives(c2, fact.cond, fact.pol, strict=True)
         if alts is None:
             # n % 2 == 0 and friends: evaluate directly when the condition is over the parameter and constants only
             r = _eval_simple(fact.cond, pname, value)
